@@ -64,7 +64,23 @@ fn catalog() -> Option<DB> {
     CATALOG.get_or_init(|| guard(|| ctehexml::load_lider_catalog().ok()).ok().flatten()).clone()
 }
 
-pub const EDITS: [&str; 9] = ["delete-line", "duplicate-line", "delete-block", "rename-quoted-name", "number->abc", "number->1e39", "number->-1", "number->999999", "truncate-after-line"];
+pub const EDITS: [&str; 10] = ["delete-line", "duplicate-line", "delete-block", "rename-quoted-name", "number->abc", "number->1e39", "number->-1", "number->999999", "truncate-after-line", "reference->own-block"];
+
+/// `"name" = TYPE` header line of a BDL block: returns the name
+fn header_name(l: &str) -> Option<&str> {
+    let t = l.trim();
+    if !t.starts_with('"') {
+        return None;
+    }
+    let q = t[1..].find('"')? + 1;
+    let rest = t[q + 1..].trim_start();
+    let ty = rest.strip_prefix('=')?.trim();
+    if !ty.is_empty() && ty.chars().all(|c| c.is_ascii_uppercase() || c == '-' || c.is_ascii_digit()) {
+        Some(&t[1..q])
+    } else {
+        None
+    }
+}
 
 /// first numeric literal on the line that is not part of an identifier: (start, end)
 fn first_number(line: &str) -> Option<(usize, usize)> {
@@ -149,11 +165,42 @@ pub fn damage(lines: &[String], line: usize, kind: usize, crlf: bool) -> Option<
             out.push(&owned);
             out.extend(lines[line + 1..].iter().map(|s| s.as_str()));
         }
-        _ => {
+        8 => {
             if line + 1 >= lines.len() {
                 return None;
             }
             out.extend(lines[..=line].iter().map(|s| s.as_str()));
+        }
+        _ => {
+            // a reference re-targeted to an existing name: the quoted name on an attribute line becomes the name of the
+            // block the line belongs to (a floor resting on itself, a schedule listing itself, a wall next to ...)
+            let l = &lines[line];
+            if header_name(l).is_some() {
+                return None;
+            }
+            let eq = l.find('=')?;
+            let p = l[eq..].find('"')? + eq;
+            let q = l[p + 1..].find('"')? + p + 1;
+            let mut h = line;
+            let own = loop {
+                if h == 0 {
+                    return None;
+                }
+                h -= 1;
+                if lines[h].trim() == ".." {
+                    return None;
+                }
+                if let Some(n) = header_name(&lines[h]) {
+                    break n;
+                }
+            };
+            if own == &l[p + 1..q] {
+                return None;
+            }
+            owned = format!("{}\"{}\"{}", &l[..p], own, &l[q + 1..]);
+            out.extend(lines[..line].iter().map(|s| s.as_str()));
+            out.push(&owned);
+            out.extend(lines[line + 1..].iter().map(|s| s.as_str()));
         }
     }
     let mut s = out.join(eol);
@@ -297,7 +344,7 @@ impl Property for C19 {
         tier == Tier::Thorough
     }
     fn required(&self, tier: Tier) -> Vec<(String, u64)> {
-        let mut v: Vec<(String, u64)> = EDITS.iter().map(|e| (format!("edit:{}", e), tier.pick(200, 50_000))).collect();
+        let mut v: Vec<(String, u64)> = EDITS.iter().map(|e| (format!("edit:{}", e), if *e == "reference->own-block" { tier.pick(200, 10_000) } else { tier.pick(200, 50_000) })).collect();
         v.push(("outcome:converted".into(), 1000));
         v.push(("outcome:rejected".into(), 1000));
         v.push(("filekind:Ctehexml".into(), 500));
